@@ -186,6 +186,13 @@ func (c *Collection) CreateColumn(columnName string, column Column) error {
 		capacity = uint32(c.opts.Capacity)
 	}
 
+	// Rows may already exist beyond that (sparse collections): cover every block of the fill-list
+	c.lock.RLock()
+	if size := uint32(len(c.fill)) << 6; size > capacity {
+		capacity = size - 1
+	}
+	c.lock.RUnlock()
+
 	column.Grow(capacity)
 	c.cols.Store(columnName, columnFor(columnName, column))
 
